@@ -31,7 +31,8 @@ def seeded_entries():
         if os.path.exists(mp) and os.path.exists(pp):
             with open(mp) as fh:
                 meta = json.load(fh)
-            out.append(dict(id='seeded/' + d, property=meta['property'], patch=pp, expect='violation',
+            # (a change seeded under one property whose effect lies in another property's statement is evaluated under that one)
+            out.append(dict(id='seeded/' + d, property=meta.get('evaluate_under', meta['property']), patch=pp, expect='violation',
                             also=meta.get('also_breaks', [])))
     return out
 
